@@ -31,7 +31,12 @@ func (r *res) Close() { r.closed = true }
 // scenario: threads are op strings; ops:
 //
 //	G get  P put oldest held  N put nil for oldest held  I idle sweep (clock +11s)
-//	S scale-in tick (clock +61s)  C<n> SetCapacity(n)  X Close
+//	S scale-in tick (clock +61s)  C<n> SetCapacity(n)  X Close  R return one pre-held resource
+//
+// No thread waits for a second resource while holding one in a scenario whose capacity can
+// shrink (S, X): with a context that never expires that is a hold-and-wait deadlock by
+// construction of the harness, not a pool defect (real callers use a 2 s timeout). Such
+// scenarios empty the pool with pre-held resources instead (Pre, op R).
 type scenario struct {
 	Name    string
 	Cap     int
@@ -39,6 +44,7 @@ type scenario struct {
 	Idle    bool
 	Threads []string
 	Faulty  bool // factory may fail (environment choice)
+	Pre     int  // resources taken before the threads start (returned by op R)
 }
 
 type world struct {
@@ -51,6 +57,10 @@ type world struct {
 	outcome  []string
 	getErrs  int
 	finalMsg string
+	pre      []*res
+	// failRemaining: number of upcoming factory calls that fail (set by an environment
+	// choice before a Get: 3 = every retry of one Get fails)
+	failRemaining int
 }
 
 var w *world
@@ -64,7 +74,8 @@ func setup(sc scenario) {
 	w = &world{sc: sc, held: map[*res]string{}}
 	ww := w
 	factory := func() (util.Resource, error) {
-		if sc.Faulty && vsched.Choose(2, 1, "factory") == 1 {
+		if ww.failRemaining > 0 {
+			ww.failRemaining--
 			return nil, fmt.Errorf("factory failed")
 		}
 		ww.nextID++
@@ -80,6 +91,16 @@ func setup(sc scenario) {
 	}
 	util.VerifStopTimers(rp)
 	w.rp = rp
+	for i := 0; i < sc.Pre; i++ {
+		r, err := rp.Get(context.Background())
+		if err != nil {
+			ev.Fatalf("pre-get: %v", err)
+		}
+		rr := r.(*res)
+		w.pre = append(w.pre, rr)
+		w.held[rr] = "pre"
+		w.nHeld++
+	}
 }
 
 func runThread(w *world, name, prog string) {
@@ -87,6 +108,9 @@ func runThread(w *world, name, prog string) {
 	for i := 0; i < len(prog); i++ {
 		switch prog[i] {
 		case 'G':
+			if w.sc.Faulty && vsched.Choose(2, 1, "factory-outage") == 1 {
+				w.failRemaining = 3
+			}
 			r, err := w.rp.Get(context.Background())
 			if err != nil {
 				w.getErrs++
@@ -120,6 +144,15 @@ func runThread(w *world, name, prog string) {
 				rr.Close()
 				w.rp.Put(nil)
 			}
+		case 'R':
+			if len(w.pre) == 0 {
+				continue
+			}
+			rr := w.pre[0]
+			w.pre = w.pre[1:]
+			delete(w.held, rr)
+			w.nHeld--
+			w.rp.Put(rr)
 		case 'I':
 			vclock.Advance(11 * time.Second)
 			util.VerifCloseIdle(w.rp)
@@ -176,21 +209,21 @@ func scenarios(r *ev.Run) []scenario {
 		{Name: "putnil-cap1max2", Cap: 1, Max: 2, Threads: []string{"GN", "GP"}},
 		{Name: "idle-cap1max2", Cap: 1, Max: 2, Idle: true, Threads: []string{"GPGP", "I"}},
 		{Name: "idle-2clients", Cap: 1, Max: 2, Idle: true, Threads: []string{"GP", "GP", "I"}},
-		{Name: "scalein-cap1max2", Cap: 1, Max: 2, Threads: []string{"GGPP", "S", "GP"}},
+		{Name: "scalein-busy", Cap: 1, Max: 2, Pre: 2, Threads: []string{"S", "GP", "RR"}},
 		{Name: "scalein-after", Cap: 1, Max: 2, Threads: []string{"GGPPSGP", "GP"}},
 		{Name: "setcap-cap1max2", Cap: 1, Max: 2, Threads: []string{"GP", "C2", "GP"}},
 		{Name: "setcap-cap1max3", Cap: 1, Max: 3, Threads: []string{"GGPP", "C2", "GP"}},
 		{Name: "setcap-shrink", Cap: 2, Max: 3, Threads: []string{"GP", "C1", "GP"}},
 		{Name: "close-cap1max2", Cap: 1, Max: 2, Threads: []string{"GP", "X", "GP"}},
-		{Name: "close-scaleout", Cap: 1, Max: 2, Threads: []string{"GGPP", "X"}},
+		{Name: "close-scaleout", Cap: 1, Max: 2, Pre: 1, Threads: []string{"GP", "X", "R"}},
 		{Name: "close-setcap", Cap: 1, Max: 2, Threads: []string{"GP", "X", "C2"}},
 		{Name: "faulty-factory", Cap: 1, Max: 2, Faulty: true, Threads: []string{"GP", "GP"}},
 	}
 	if r.Thorough() {
 		s = append(s,
 			scenario{Name: "3clients-cap2max3", Cap: 2, Max: 3, Threads: []string{"GGPP", "GP", "GP"}},
-			scenario{Name: "idle-scalein", Cap: 1, Max: 2, Idle: true, Threads: []string{"GGPP", "I", "S"}},
-			scenario{Name: "setcap-scalein", Cap: 1, Max: 3, Threads: []string{"GGPP", "C2", "S"}},
+			scenario{Name: "idle-scalein", Cap: 1, Max: 2, Idle: true, Pre: 2, Threads: []string{"RRGP", "I", "S"}},
+			scenario{Name: "setcap-scalein", Cap: 1, Max: 3, Pre: 2, Threads: []string{"RRGP", "C2", "S"}},
 			scenario{Name: "close-idle", Cap: 1, Max: 2, Idle: true, Threads: []string{"GP", "X", "I"}},
 			scenario{Name: "faulty-3", Cap: 1, Max: 2, Faulty: true, Threads: []string{"GP", "GP", "GN"}},
 		)
